@@ -333,7 +333,7 @@ def main(tier, seed):
     except Exception as ex:
         terrs.append("t6_globals: %s" % ex)
     try:
-        t9 = t9_strerror.main()
+        t9 = t9_strerror.main(need_strerror=False)
     except Exception as ex:
         terrs.append("t9_strerror: %s" % ex)
     pres = common.props_check(PID, extra_targets=["Props/Examples_C17.vo"])
